@@ -124,8 +124,7 @@ Qed.
 Lemma cfgs_mirrored_ok : forall l, cfgs_mirrored l (map (filter is_cfg_attr) l) (map (filter is_cfg_attr) l) = true.
 Proof.
   induction l as [|a l IH]; [reflexivity|]. cbn [map cfgs_mirrored]. rewrite IH, andb_true_r.
-  apply forallb_forall. intros x Hx. change (filter is_cfg a) with (filter is_cfg_attr a) in Hx.
-  rewrite (existsb_toks_In _ _ Hx). reflexivity.
+  change (filter is_cfg a) with (filter is_cfg_attr a). rewrite toks_list_eqb_refl. reflexivity.
 Qed.
 
 Lemma impl_fns_attrs ind im fns argss : List.length fns = List.length argss ->
